@@ -187,6 +187,46 @@ impl CPlain for CHp { fn cp_me(&self) -> usize { self as *const _ as usize } }
 """ % (val, arg, tr, label, at["words"], at["words"], label, at["inst_at"], at["inst_at"],
        ("""        report(&mut out, "%s:context", w.len() > %d && w[%d] == ap, format!("words {:x?}, context payload at {:x}", w, ap));
 """ % (label, at["ctx_at"], at["ctx_at"])) if k["ctx"] == "arc" else "", tmp_chk))
+    # group containers: temporary storage blocks of the member traits, mandatory first (Layout!GroupContWords)
+    src.append("""#[cglue_trait] pub trait ZHold {
+    #[wrap_with_obj_ref(CPlain)]
+    type ZRet: CPlain + 'static;
+    fn zh_inner(&self) -> &Self::ZRet;
+    fn zh_me(&self) -> usize;
+}
+#[cglue_trait] pub trait AHold {
+    #[wrap_with_obj_ref(CPlain)]
+    type ARet: CPlain + 'static;
+    fn ah_inner(&self) -> &Self::ARet;
+}
+cglue_trait_group!(GHold, ZHold, AHold);
+pub struct GHd { pub z: CIn, pub a: CIn }
+impl ZHold for GHd { type ZRet = CIn; fn zh_inner(&self) -> &CIn { &self.z } fn zh_me(&self) -> usize { self as *const _ as usize } }
+impl AHold for GHd { type ARet = CIn; fn ah_inner(&self) -> &CIn { &self.a } }
+cglue_impl_group!(GHd, GHold, AHold);
+""")
+    for gc in sorted(data.get("groupconts", []), key=lambda x: x["ctx"]):
+        cx, at = gc["ctx"], gc["at"]
+        arg = "(GHd { z: CIn { v: 1 }, a: CIn { v: 2 } }, CArc::<u64>::from(a.clone()))" if cx == "arc" else "GHd { z: CIn { v: 1 }, a: CIn { v: 2 } }"
+        label = "groupcontainer:%s" % cx
+        checks.append("""    {
+        let a = std::sync::Arc::new(78u64);
+        let ap = std::sync::Arc::as_ptr(&a) as usize;
+        let o = group_obj!(%s as GHold);
+        let me = o.zh_me();
+        let zi = { let r = o.zh_inner(); r.cp_me() };
+        let ai = { let v = as_ref!(o impl AHold).expect("AHold enabled"); let r = v.ah_inner(); r.cp_me() };
+        let w = words(&o);
+        report(&mut out, "%s:size", w.len() == %d, format!("{} words, expected %d", w.len()));
+        report(&mut out, "%s:instance", w.len() > %d && w[%d] == me, format!("words {:x?}, instance at {:x}", w, me));
+%s        report(&mut out, "%s:tmp_mandatory", w.len() > %d && w[%d] != 0 && w[%d] == zi, format!("words {:x?}, ZHold's inner at {:x}, AHold's at {:x}", w, zi, ai));
+        report(&mut out, "%s:tmp_optional", w.len() > %d && w[%d] != 0 && w[%d] == ai, format!("words {:x?}, ZHold's inner at {:x}, AHold's at {:x}", w, zi, ai));
+    }
+""" % (arg, label, at["words"], at["words"], label, at["inst_at"], at["inst_at"],
+       ("""        report(&mut out, "%s:context", w.len() > %d && w[%d] == ap, format!("words {:x?}, context payload at {:x}", w, ap));
+""" % (label, at["ctx_at"], at["ctx_at"])) if cx == "arc" else "",
+       label, at["tmp_at"]["ZHold"] + 1, at["tmp_at"]["ZHold"], at["tmp_at"]["ZHold"] + 1,
+       label, at["tmp_at"]["AHold"] + 1, at["tmp_at"]["AHold"], at["tmp_at"]["AHold"] + 1))
     src.append("""fn words<T>(t: &T) -> Vec<usize> {
     (0..std::mem::size_of::<T>() / 8).map(|i| unsafe { *(t as *const T as *const usize).add(i) }).collect()
 }
